@@ -86,3 +86,57 @@ def run_repo_traces(run, focus, tag):
     if data["stats"]["errors"] > max(5, len(cases) // 10):
         raise tla.MachineryError(f"the trace recorder failed on {data['stats']['errors']} calls")
     return len(cases)
+
+
+HYPER_QUICK = {"files": ["tests/test_optimizers.py"], "k": "test_hyper_slicer or test_hyper_reconf or test_reusable", "maxn": 4,
+               "per_test": 1, "total": 10}
+HYPER_THOROUGH = {"files": ["tests/test_optimizers.py", "tests/test_compressed.py", "tests/test_interface.py"],
+                  "k": "not chocolate and not optuna and not skopt and not ray and not dask", "maxn": 4, "per_test": 1, "total": 10}
+
+
+def run_repo_hyper(run, tag):
+    """C08 on the repository's own tests: every HyperOptimizer search they make is recorded (harness/repotrace.install_hyper);
+    the trial scores, the winner and the count are judged by HyperOptJudge, the winner's recorded figures are compared with
+    the figures of the tree handed back"""
+    INF = 10**6
+    cfg = HYPER_QUICK if run.tier == "quick" else HYPER_THOROUGH
+    data = collect(f"{tag}_hyper_{run.tier}", cfg)
+    recs = data.get("hyper", [])
+    hcases, kept = [], []
+    for r in recs:
+        run.count()
+        run.nontrivial(("repo-hyper", r["test"], r["before"], len(r["scores"])))
+        d = {"source": "repository test-suite", "test": r["test"], "class": r["cls"], "max_repeats": r["max_repeats"],
+             "max_time": r["max_time"], "scores": r["scores"][:40]}
+        scores = r["scores"]
+        n = len(scores)
+        fin = [x for x in scores if x != float("inf")]
+        if not fin:
+            continue
+        order = sorted(set(fin))
+        rank = {x: k + 1 for k, x in enumerate(order)}
+        best_id = scores.index(min(fin)) + 1 if r["best_score"] == min(fin) else -1
+        early = r["max_time"] != "None"
+        requested = r["before"] + r["max_repeats"]
+        hcases.append({"M": max(n, 1) if early else requested, "P": max(n, requested, 1),
+                       "events": [["submit", i] for i in range(1, n + 1)] + [["report", i] for i in range(1, n + 1)],
+                       "score": [rank.get(x, INF) for x in scores] + [INF] * max(0, requested - n), "Inf": INF, "best": best_id,
+                       "nscores": n, "rule": "any" if early else "none", "amount": 0})
+        kept.append((r, d))
+        if r.get("has_tree"):
+            if not r.get("complete") or not r.get("same_net"):
+                run.violation(f"in the repository's own test {r['test']} the hyper-optimizer handed back a tree that is not a complete "
+                              f"tree of the contraction asked about", d, tags={"repo-trace", "wrong-tree"})
+            elif "tree_stats" in r and r["recorded"] != r["tree_stats"]:
+                run.violation(f"in the repository's own test {r['test']} the winner's recorded figures {r['recorded']} differ from the "
+                              f"figures {r['tree_stats']} of the tree handed back", d, tags={"repo-trace", "figures"})
+    verdicts, results = tla.judge_cases(f"{tag}_repo_hyper", "HyperOptJudge", hcases, chunk=200)
+    for res in results:
+        run.tlc(res)
+    run.cov["traces_validated_against_impl"] += len(hcases)
+    for (r, d), v in zip(kept, verdicts):
+        if v[0] != "ok":
+            run.violation(f"a HyperOptimizer search of the repository's own test {r['test']} is rejected by HyperOptJudge: {v[0]} "
+                          f"(trials {len(r['scores'])}, max_repeats {r['max_repeats']})", d, tags={"repo-trace", v[0]})
+    run.extra["repo_test_hyper_searches"] = {"files": cfg["files"], "searches_judged": len(hcases), "pytest": data.get("pytest_tail")}
+    return len(hcases)
